@@ -212,6 +212,8 @@ func families(thorough bool) []graphFamily {
 		{"http-and-dirs", refgraph.Options{Docs: 6, Defs: 2, Elements: true, Cycles: true, RefP: 0.5, Spellings: true, HTTP: true}},
 		{"same-path-twins", refgraph.Options{Docs: 4, Defs: 2, Elements: true, Cycles: true, RefP: 0.6, Spellings: true, Twins: true}},
 		{"same-path-twins-acyclic", refgraph.Options{Docs: 4, Defs: 2, Elements: true, RefP: 0.7, Spellings: true, Twins: true}},
+		{"case-twins", refgraph.Options{Docs: 3, Defs: 3, Elements: true, Cycles: true, RefP: 0.7, Spellings: true, CaseTwins: true}},
+		{"http-root", refgraph.Options{Docs: 4, Defs: 2, Elements: true, Cycles: true, RefP: 0.6, Spellings: true, HTTPRoot: true}},
 	}
 }
 
